@@ -213,6 +213,17 @@ theorem whitelist_exact {V : Type} (wl : List Str) (js : Str → Option V) :
         | some v => simpa using ih.cons_cons x
     exact hsub.nodup (nodup_dedup wl)
 
+/-- "the whitelist leaves every value unchanged" also for numbers as WRITTEN in the message — FALSE: the tool
+decodes into float64 (open finding `whitelist-rewrites-large-integers`). -/
+def whitelist_integers_exact : Prop := ∀ n : Nat, f64round n = n
+
+theorem whitelist_integers_exact_false : ¬ whitelist_integers_exact := by
+  intro h; have := h 9007199254740993; revert this; decide
+
+/-- the provable part: integers below 2^53 (forced hypothesis) are forwarded exactly -/
+theorem whitelist_integers_exact_partial (n : Nat) (h : n < 2 ^ 53) : f64round n = n := by
+  unfold f64round; simp [h]
+
 /-- Destination topic: `--destination-topic` is ONE string (not a list): when set, every message of every
 consumed topic is published to it; otherwise each message goes to the topic it was consumed from. A message is
 published to exactly one topic on exactly one destination nsqd. -/
@@ -247,6 +258,8 @@ example : validateHttp ⟨true, false, false, true, false, 1, 0, 0, [1], true⟩
 example : httpMode "round_robin" = 0 ∧ httpMode "round-robin" = 1 ∧ n2nMode "hostpol" = 0 := by decide
 example : shouldPass ⟨s "f", s "1", true⟩ (some (.num true)) = (true, false) ∧
     shouldPass ⟨s "f", s "1", true⟩ none = (false, true) ∧ shouldPass ⟨s "f", [], false⟩ (some .other) = (true, false) := by decide
+example : f64round 9007199254740993 = 9007199254740992 ∧ f64round 1234567890123456789 = 1234567890123456768 ∧
+    f64round 42 = 42 := by decide
 example : whitelist [s "a", s "b", s "a", s "c"] (fun k => if k = s "a" then some 1 else if k = s "c" then some 2 else none)
     = [(s "a", 1), (s "c", 2)] := by decide
 
